@@ -740,9 +740,29 @@ func checkC07NoScriptOnError(p *Prog, r *Report, ru *Rule, sh *ssa.Function) {
 							}
 						}
 						onErr := nil == reachQ{From: entryLoc(sh), NoEdges: fail, Target: func(j ssa.Instruction) bool { return j == ssa.Instruction(x) }}.run()
-						if onErr {
+						/* Or the request ends there without a script (a
+						refusal of the handler's own, e.g. a sanity check on
+						the parameters), and the script can still be sent
+						without passing here when nothing fails. */
+						isBody := func(j ssa.Instruction) bool {
+							cj := callCommon(j)
+							if nil == cj || 0 == len(cj.Args) || stripConv(cj.Args[0], false) != ssa.Value(w) && (len(cj.Args) < 2 || stripConv(cj.Args[1], false) != ssa.Value(w)) {
+								return false
+							}
+							switch calleeName(cj) {
+							case "(net/http.ResponseWriter).WriteHeader", "(net/http.ResponseWriter).Header":
+								return false
+							}
+							return true
+						}
+						endsRequest := nil == reachQ{From: locOf(x), Target: isBody}.run()
+						sentWhenGood := nil != reachQ{From: entryLoc(sh), NoEdges: fail, Block: func(j ssa.Instruction) bool { return j == ssa.Instruction(x) }, Target: isBody}.run()
+						switch {
+						case onErr:
 							ru.OK(fmt.Sprintf("%s#%d", c, k), posOf(x), "error status on an error edge")
-						} else {
+						case endsRequest && sentWhenGood:
+							ru.OK(fmt.Sprintf("%s#%d", c, k), posOf(x), "an error status of the handler's own: no script follows it, and the script is sent without passing here when no step fails")
+						default:
 							ru.Bad(fmt.Sprintf("%s#%d", c, k), posOf(x), "error status %d outside an error edge", k)
 						}
 					}
